@@ -41,6 +41,17 @@ CLAIMED = {
    note=NOTE_COMMON + 'det/logdet/expm have no theorem (validated per case against exact predicates); closeness of the Pade approximant to expm is numerical analysis.',
    technique='Coq proof over abstract rings + refinement of executable list matrices to mathcomp matrices + correspondence and exact residual predicates',
    design='4/C07'),
+ 'C08': dict(
+   text='Theorems (every field with 2 != 0, every size, every D, all higher coefficients; closed under the global context): the Cholesky, '
+        'pivoted LU and square QR recurrences of the model satisfy L L^T = A (L_d lower), L U = w^T A (L unit lower, U upper, constant '
+        'permutation), Q R = A, Q^T Q = I (R upper) modulo t^D whenever the base factors satisfy them at order 0. On every run: the '
+        'implementation against the Coq models (base factors from NumPy/SciPy as the implementation takes them) and, for EVERY factorization '
+        '(qr reduced square/tall/wide, qr_full, cholesky, lu, eigh with distinct and exactly repeated base eigenvalues incl. splitting at '
+        'order 2, eig D<=2, svd square/tall/wide), the defining equations, triangular structure, ordering and base-point factors evaluated '
+        'with exact rational series arithmetic on the implementation output.',
+   note=NOTE_COMMON + 'qr (rectangular), qr_full, eigh, eig and svd have no Coq model: their defining equations are validated per case (not a proof); LAPACK base factorizations are inputs.',
+   technique='Coq proof of the lifting steps over mathcomp matrices (kernels shared with the executable list-matrix instance) + correspondence + exact residual predicates',
+   design='4/C08'),
  'C10': dict(
    text='Theorems: for every model kernel the zeroth coefficient of the result is the base operation applied to the zeroth coefficients '
         '(ring operation, or the base value handed in from NumPy/SciPy), and result shapes are NumPy broadcast shapes. NumPy itself is the '
